@@ -61,13 +61,22 @@ def run(cmd, timeout=None, cwd=None, env=None, mem_gb=None, stdin=None):
     tf = tempfile.NamedTemporaryFile(prefix='rss', delete=False)
     tf.close()
     full = ['/usr/bin/time', '-f', '%M', '-o', tf.name] + pre + list(cmd)
+    import signal
+    pr = subprocess.Popen(full, stdout=subprocess.PIPE, stderr=subprocess.PIPE, stdin=subprocess.PIPE if stdin is not None else None, cwd=cwd, env=env,
+                          text=True, errors='replace', start_new_session=True)
     try:
-        p = subprocess.run(full, stdout=subprocess.PIPE, stderr=subprocess.PIPE, timeout=timeout, cwd=cwd, env=env,
-                           input=stdin, text=True, errors='replace')
-        rc, out, err = p.returncode, p.stdout, p.stderr
-    except subprocess.TimeoutExpired as e:
-        rc, out, err = None, (e.stdout or b'').decode(errors='replace') if isinstance(e.stdout, bytes) else (e.stdout or ''), ''
-        subprocess.run(['pkill', '-f', tf.name], stderr=subprocess.DEVNULL)
+        out, err = pr.communicate(input=stdin, timeout=timeout)
+        rc = pr.returncode
+    except subprocess.TimeoutExpired:
+        try:
+            os.killpg(pr.pid, signal.SIGKILL)     # the whole group: cbmc and an external SAT solver it started
+        except Exception:
+            pass
+        try:
+            out, err = pr.communicate(timeout=10)
+        except Exception:
+            out, err = '', ''
+        rc = None
     rss = 0
     try:
         txt = open(tf.name).read().split()
@@ -146,7 +155,7 @@ def parse_cbmc_value(v):
 
 def cbmc(gb, function, unwind=None, flags=(), timeout=600, mem_gb=16, unwindset=(), trace=True, checks=CBMC_CHECKS,
          drop_unused=True, solver=(), cvc5_int=False):
-    cmd = ['cbmc', gb, '--function', function, '--json-ui', '--verbosity', '8', '--unwinding-assertions'] + list(checks)
+    cmd = ['cbmc', gb] + (['--function', function] if function else []) + ['--json-ui', '--verbosity', '8', '--unwinding-assertions'] + list(checks)
     if drop_unused:
         cmd.append('--drop-unused-functions')
     if unwind is not None:
